@@ -408,6 +408,21 @@ def r6_template(chk):
     chk.ob('C06.R6', 'augmention', src.count("definition['augmention']['object'] }}.registerAugmentions(") == 1 and
            src.count("setIndexNames(*{{ definition['augmention']['object'] }}.getIndexNames())") == 1, tm.rel,
            'augmenting rows must register with and copy the index of augmention.object')
+    # the pair handed to registerAugmentions names the *augmenting* row: (module being generated, this symbol)
+    m = re.search(r"registerAugmentions\(\s*\(\"\{\{\s*(.*?)\s*\}\}\",\s*\"\{\{\s*(.*?)\s*\}\}\"\)\s*\)", src)
+    modx = m.group(1) if m else None
+    ok = m is not None and modx in ("mib['meta']['module']", "definition['augmention']['module']") and \
+        m.group(2).startswith('symbol')
+    chk.ob('C06.R6', 'augmention-registered-pair', ok, tm.rel,
+           'registerAugmentions must get ("<module being generated>", "<this row>"), found %s' % (
+               (m.groups() if m else None),))
+    ci_ = chk.model.cls(INTER, 'IntermediateCodeGen')
+    o_, fn_ = ci_.find_method('genObjectType')
+    sts = [x for x in ir.record_stores(fn_) if x.key == ('augmention', 'module')]
+    chk.ob('C06.R6', 'augmention-module-is-own-module', len(sts) == 1 and norm(sts[0].value) == 'self.moduleName[0]',
+           where(ci_.mod, sts[0].node) if sts and hasattr(sts[0], 'node') else ci_.mod.rel,
+           'augmention.module (with augmention.name the identity of the augmenting row) must be the module being '
+           'compiled, found %s' % [norm(x.value) for x in sts])
     pairs = re.findall(r"\(\"\{\{ obj\['(\w+)'\] \}\}\", \"\{\{\s+obj\['(\w+)'\] \}\}\"\)", src)
     chk.ob('C06.R6', 'setObjects-pairs', len(pairs) >= 16 and set(pairs) == set([('module', 'object')]), tm.rel,
            'pairs found: %s' % sorted(set(pairs)))
